@@ -186,7 +186,10 @@ def _b_case(args):
         A = rng.integers(-3, 4, size=(m, n, 4)).astype(float)
     elif kind == "zero-col":
         A = rng.standard_normal((m, n, 4))
-        A[:, rng.integers(0, n)] = 0.0
+        if rng.random() < 0.5:
+            A[:, rng.integers(0, n)] = 0.0
+        else:
+            A[:, rng.integers(0, n)] *= -0.0                  # zeros carrying sign bits
     elif kind == "scaled":
         A = rng.standard_normal((m, n, 4)) * 10.0 ** rng.integers(-6, 7)
     else:
